@@ -159,6 +159,36 @@ theorem x4_geometry (lo hi x1 x2 t : Rat) (ht1 : -1 < t) (ht2 : t < 1)
     have := mul_le_mul_of_nonneg_left this (abs_nonneg (x2 - x1))
     linarith
 
+/-! ### the clamp of commit 008fb03 -/
+
+theorem rmin_eq_min (x y : Rat) : Lp.rmin x y = min x y := by
+  unfold Lp.rmin
+  by_cases h : y < x
+  · rw [if_pos h, min_eq_right (le_of_lt h)]
+  · rw [if_neg h, min_eq_left (not_lt.mp h)]
+
+theorem rmax_eq_max (x y : Rat) : Lp.rmax x y = max x y := by
+  unfold Lp.rmax
+  by_cases h : x < y
+  · rw [if_pos h, max_eq_right (le_of_lt h)]
+  · rw [if_neg h, max_eq_left (not_lt.mp h)]
+
+/-- the clamped iterate is inside the current bracket, whatever was computed -/
+theorem clampX4_mem (x1 x2 x4 : Rat) : min x1 x2 ≤ clampX4 x1 x2 x4 ∧ clampX4 x1 x2 x4 ≤ max x1 x2 := by
+  unfold clampX4
+  rw [rmin_eq_min, rmax_eq_max]
+  by_cases h1 : x4 < min x1 x2
+  · rw [if_pos h1]; exact ⟨le_refl _, min_le_max⟩
+  · rw [if_neg h1]
+    by_cases h2 : x4 > max x1 x2
+    · rw [if_pos h2]; exact ⟨min_le_max, le_refl _⟩
+    · rw [if_neg h2]; exact ⟨not_lt.mp h1, not_lt.mp h2⟩
+
+/-- the clamp does nothing to an iterate that is inside the bracket (exact arithmetic) -/
+theorem clampX4_of_mem (x1 x2 x4 : Rat) (h1 : min x1 x2 ≤ x4) (h2 : x4 ≤ max x1 x2) : clampX4 x1 x2 x4 = x4 := by
+  unfold clampX4
+  rw [rmin_eq_min, rmax_eq_max, if_neg (not_lt.mpr h1), if_neg (not_lt.mpr h2)]
+
 /-! ### one pass through the loop body -/
 
 /-- a bracket with a sign change, inside `[lo, hi]` -/
@@ -193,6 +223,10 @@ theorem step_spec (f : Rat → Option Rat) (sq : Rat → Rat) (hsq : SqOK sq) (l
   · rename_i f3 h3
     rw [ridderX4_id]
     obtain ⟨ht1, ht2, htneg, htpos⟩ := ridderT_bounds sq hsq f1 f2 f3 hsc
+    have g0 := x4_geometry (min x1 x2) (max x1 x2) x1 x2 (ridderT sq f1 f2 f3) ht1 ht2
+      (min_le_left _ _) (le_max_left _ _) (min_le_right _ _) (le_max_right _ _)
+    simp only [] at g0
+    rw [clampX4_of_mem x1 x2 _ g0.2.2.1 g0.2.2.2.1]
     have g := x4_geometry lo hi x1 x2 (ridderT sq f1 f2 f3) ht1 ht2 hl1 hh1 hl2 hh2
     simp only [] at g
     obtain ⟨g3l, g3h, g4l, g4h, gw3, gw1, gw2⟩ := g
@@ -269,5 +303,86 @@ theorem step_spec (f : Rat → Option Rat) (sq : Rat → Rat) (hsq : SqOK sq) (l
             have hbr' : Br f lo hi ((x1 + x2) / 2 + ((x1 + x2) / 2 - x1) * ridderT sq f1 f2 f3) x2 f4 f2 :=
               ⟨h4, hf2, by linarith [mul_comm f2 f4], g4l, g4h, hl2, hh2⟩
             exact fin _ _ f4 f2 hbr' (gw2 (htpos h13)) (Or.inl rfl)
+
+/-! ### containment for every square root and every rounding -/
+
+/-- both ends of the bracket inside `[lo, hi]` (no sign condition) -/
+def InHull (lo hi x1 x2 : Rat) : Prop := lo ≤ x1 ∧ x1 ≤ hi ∧ lo ≤ x2 ∧ x2 ≤ hi
+
+def StepHull (lo hi : Rat) : Step → Prop
+  | .done _ ev => ∀ x ∈ ev, lo ≤ x ∧ x ≤ hi
+  | .next y1 y2 _ _ r ev => (∀ x ∈ ev, lo ≤ x ∧ x ≤ hi) ∧ InHull lo hi y1 y2 ∧ lo ≤ r ∧ r ≤ hi
+
+theorem step_hull (f : Rat → Option Rat) (sq rnd : Rat → Rat) (lo hi acc x1 x2 f1 f2 : Rat)
+    (hin : InHull lo hi x1 x2) : StepHull lo hi (step f sq rnd acc x1 x2 f1 f2) := by
+  obtain ⟨hl1, hh1, hl2, hh2⟩ := hin
+  have h3 : lo ≤ (x1 + x2) / 2 ∧ (x1 + x2) / 2 ≤ hi := by constructor <;> linarith
+  have hmin : lo ≤ min x1 x2 := le_min hl1 hl2
+  have hmax : max x1 x2 ≤ hi := max_le hh1 hh2
+  unfold step
+  simp only []
+  split
+  · intro x hx
+    simp only [List.mem_cons, List.not_mem_nil, or_false] at hx
+    subst hx; exact h3
+  · rename_i f3 _
+    have hc := clampX4_mem x1 x2 (ridderX4 sq rnd x1 f1 f2 ((x1 + x2) / 2) f3)
+    have h4 : lo ≤ clampX4 x1 x2 (ridderX4 sq rnd x1 f1 f2 ((x1 + x2) / 2) f3) ∧
+        clampX4 x1 x2 (ridderX4 sq rnd x1 f1 f2 ((x1 + x2) / 2) f3) ≤ hi :=
+      ⟨le_trans hmin hc.1, le_trans hc.2 hmax⟩
+    have hev : ∀ x ∈ [(x1 + x2) / 2, clampX4 x1 x2 (ridderX4 sq rnd x1 f1 f2 ((x1 + x2) / 2) f3)], lo ≤ x ∧ x ≤ hi := by
+      intro x hx
+      simp only [List.mem_cons, List.not_mem_nil, or_false] at hx
+      rcases hx with rfl | rfl
+      · exact h3
+      · exact h4
+    split
+    · exact hev
+    · rename_i f4 _
+      by_cases hz : f4 = 0
+      · rw [if_pos hz]; exact hev
+      · rw [if_neg hz]
+        unfold rebracket
+        by_cases ha : sign2 f3 f4 ≠ f3
+        · rw [if_pos ha]; simp only []
+          split
+          · exact hev
+          · exact ⟨hev, ⟨h3.1, h3.2, h4.1, h4.2⟩, h4.1, h4.2⟩
+        · rw [if_neg ha]
+          by_cases hb : sign2 f1 f4 ≠ f1
+          · rw [if_pos hb]; simp only []
+            split
+            · exact hev
+            · exact ⟨hev, ⟨hl1, hh1, h4.1, h4.2⟩, h4.1, h4.2⟩
+          · rw [if_neg hb]
+            by_cases hc' : sign2 f2 f4 ≠ f2
+            · rw [if_pos hc']; simp only []
+              split
+              · exact hev
+              · exact ⟨hev, ⟨h4.1, h4.2, hl2, hh2⟩, h4.1, h4.2⟩
+            · rw [if_neg hc']; exact hev
+
+theorem loop_hull (f : Rat → Option Rat) (sq rnd : Rat → Rat) (lo hi acc : Rat) (n : Nat) :
+    ∀ x1 x2 f1 f2 res : Rat, InHull lo hi x1 x2 → (n = 0 → lo ≤ res ∧ res ≤ hi) →
+      ∀ x ∈ (loop f sq rnd acc n x1 x2 f1 f2 res).evals, lo ≤ x ∧ x ≤ hi := by
+  induction n with
+  | zero =>
+    intro x1 x2 f1 f2 res _ hres x hx
+    rw [loop] at hx
+    simp only [List.mem_cons, List.not_mem_nil, or_false] at hx
+    subst hx; exact hres rfl
+  | succ n ih =>
+    intro x1 x2 f1 f2 res hin _ x hx
+    have hs := step_hull f sq rnd lo hi acc x1 x2 f1 f2 hin
+    rw [loop] at hx
+    generalize step f sq rnd acc x1 x2 f1 f2 = st at hs hx
+    cases st with
+    | done o ev => exact hs x hx
+    | next y1 y2 g1 g2 r ev =>
+      obtain ⟨hev, hin', hr⟩ := hs
+      simp only [List.mem_append] at hx
+      rcases hx with hx | hx
+      · exact hev x hx
+      · exact ih y1 y2 g1 g2 r hin' (fun _ => hr) x hx
 
 end Lp.C02
